@@ -68,6 +68,18 @@ def scenarios(tier, seed):
                 out.append(dict(family="bn/2step", mode="bn", shape=b, nodes=nodes, parents=parents, card=card, cpds=with_cpds,
                                 ops=[list(pairs[i][0]), list(pairs[i][1])], states=C.STATE_STYLES[k % len(C.STATE_STYLES)], hashseed=k % 2,
                                 latents=[]))
+            # targeted two-step histories that the rotating sample may skip: edits of partially parameterised models
+            targeted = []
+            for v in nodes:
+                targeted += [[("remove_cpds", v), ("remove_node", v)], [("remove_cpds", v), ("do", [v])], [("remove_cpds", v), ("remove_nodes_from", nodes[:2])]]
+                for u in nodes:
+                    if u != v:
+                        targeted += [[("remove_cpds", u), ("remove_node", v)], [("add_edge", u, v), ("remove_node", u)], [("remove_node", u), ("add_cpds_valid", v)],
+                                     [("remove_cpds", u), ("do", [v])]]
+            for pair in targeted if with_cpds else []:
+                k += 1
+                out.append(dict(family="bn/2step-targeted", mode="bn", shape=b, nodes=nodes, parents=parents, card=card, cpds=with_cpds,
+                                ops=[list(pair[0]), list(pair[1])], states=C.STATE_STYLES[k % len(C.STATE_STYLES)], hashseed=k % 2, latents=[]))
             if tier == "thorough":
                 triples = list(itertools.product(ops, ops, ops))
                 for i in range(seed % 997, len(triples), 997):
@@ -116,8 +128,9 @@ def check_invariants(M, model, tag):
 
 
 def consistent(model):
-    """pre-state has one CPD per node whose scope is the node + its graph parents"""
-    if len(model.cpds) != len(model.nodes()):
+    """every CPD present in the pre-state belongs to a node and has scope node + its graph parents (nodes without a CPD are allowed:
+    the property speaks of "every remaining CPD")"""
+    if len({c.variable for c in model.cpds}) != len(model.cpds):
         return False
     return all(c.variable in model.nodes() and set(c.variables[1:]) == set(model.predecessors(c.variable)) for c in model.cpds)
 
@@ -279,7 +292,7 @@ def run_bn(desc, M):
             check_cpds_valid(M, model, tag, exact=not random_used)
             if kind in ("remove_node", "remove_nodes_from"):
                 gone = {op[1]} if kind == "remove_node" else set(op[1])
-                M.check({c.variable for c in model.cpds} == before["nodes"] - gone, "remaining CPDs are exactly those of the remaining nodes", detail=tag)
+                M.check({c.variable for c in model.cpds} == {c[0] for c in before["cpds"]} - gone, "remaining CPDs are exactly those of the remaining nodes", detail=tag)
                 M.check(not (set(model.latents) & gone), "removed nodes leave the latent set", detail=tag)
     if M.symbolic:
         M.samples.append(f"{desc['shape']} cpds={desc['cpds']} ops={desc['ops']}")
@@ -312,6 +325,20 @@ def run_dbn(desc, M):
     cp.cpds[0].values[0] = 0.9
     M.check(not d.has_edge(("C", 0), ("C", 1)), "editing a DBN copy leaves the original's edges")
     M.check(float(d.cpds[0].values[0]) == 0.4, "editing a DBN copy leaves the original's CPDs", detail=str(d.cpds[0].values))
+    # latent sets: editing either model (through add_node(latent=True) or directly) never changes the other; also for a copy of a copy
+    cp2 = d.copy()
+    cp3 = cp2.copy()   # (copied before any node is added: a DBN holding a node without its slice-1 twin cannot be copied at all)
+    lat_d, lat_c = set(d.latents), set(cp2.latents)
+    cp2.add_node("L", latent=True)
+    M.check(set(d.latents) == lat_d, "adding a latent node to a DBN copy leaves the original's latent set", detail=f"{d.latents}")
+    lat_c = set(cp2.latents)
+    d.add_node("K", latent=True)
+    M.check(set(cp2.latents) == lat_c, "adding a latent node to the original DBN leaves the copy's latent set", detail=f"{cp2.latents}")
+    cp3.add_node("Q", latent=True)
+    cp3.latents.add("direct")
+    M.check(set(cp2.latents) == lat_c, "editing the latent set of a copy of a copy leaves its source", detail=f"{cp2.latents}")
+    M.check(set(cp2.latents) <= set(cp2.nodes()) and set(d.latents) <= set(d.nodes()), "latent sets only name nodes of their own model",
+            detail=f"{d.latents} / {cp2.latents}")
 
 
 def run_jt(desc, M):
